@@ -83,6 +83,35 @@ def sign_patterns(run, tier, rng):
                     continue
                 if got.tobytes() != want.tobytes():
                     run.violation({"kind": "reloaded_transform_differs", "target": "raw", "constant_coefficient": const, "n_vectors": n})
+        # keyword arguments of the constructor are handed to the reader (documented); a memory-mapped .npy among them.
+        # What was loaded is the instance's own: a later save to that path does not reach it, and what it accumulates
+        # does not reach the file before it saves
+        for mode in ("r", "c", "r+"):
+            k += 1
+            path = os.path.join(tmp, "%d_mm.npy" % k)
+            a = post.Standardize()
+            a.accumulate(nprng.randn(9, 3))
+            probe = nprng.randn(4, 3)
+            run.evaluations += 1
+            try:
+                a.save(path)
+                want = a.apply(probe)
+                b = post.Standardize(path, mmap_mode=mode)
+                first = b.apply(probe)
+                if mode == "r+":
+                    b.accumulate(nprng.randn(5, 3) * 7 + 2)
+                    again = post.Standardize(path).apply(probe)
+                    if again.tobytes() != want.tobytes():
+                        run.violation({"kind": "saved_file_changed_without_save", "target": "npy", "mmap_mode": mode})
+                else:
+                    a.accumulate(nprng.randn(5, 3) * 7 + 2)
+                    a.save(path)
+                    if b.apply(probe).tobytes() != want.tobytes():
+                        run.violation({"kind": "loaded_instance_changed_by_a_later_save", "target": "npy", "mmap_mode": mode})
+                if first.tobytes() != want.tobytes():
+                    run.violation({"kind": "reloaded_transform_differs", "target": "npy", "mmap_mode": mode})
+            except Exception as e:
+                run.violation({"kind": "save_reload_raised", "target": "npy", "mmap_mode": mode, "error": repr(e)})
         # no statistics: ValueError, for every kind
         for fn in ("e.npy", "e.npz", "e.bin"):
             try:
